@@ -319,6 +319,9 @@ def _(self: Hardware, other: Hardware) -> Bool:
 @lemma
 def law_add_then_sub_restores(h: Hardware, r: Hardware):
     requires(wf_hardware(h) and wf_hardware(r))
+    # stated for the case that the subtraction returns; that it cannot be rejected here (no per-mount difference of
+    # (h + r) - r is negative) is not derived: Hardware.__sub__'s contract does not say exactly when it raises
+    raises(WorkflowExecutionException, strict=False)
     ghost("hm", mounts(vals(h)))
     ghost("hz", sizes(vals(h)))
     s = h + r
